@@ -149,9 +149,11 @@ def param_decl(p):
     return m.group(1).strip(), m.group(2)
 
 
-def build_unit(unit, quiet=True):
+def build_unit(unit, quiet=True, force_drop=()):
+    """force_drop: lowered functions whose loop contracts are NOT applied (their loops are then searched
+    to a bounded depth only) - used to confirm a failing loop contract by a property failure"""
     spec = load_spec(unit)
-    key = sha(repo_headers_hash(), verif_inputs_hash(unit), unit)
+    key = sha(repo_headers_hash(), verif_inputs_hash(unit), unit, ','.join(sorted(force_drop)))
     d = os.path.join(CACHE, unit + '-' + key)
     done = os.path.join(d, 'unit.json')
     if os.path.exists(done):
@@ -186,164 +188,186 @@ def build_unit(unit, quiet=True):
         ents = ent if isinstance(ent, list) else [ent]
         if pat not in bound and not all(e.get('optional') for e in ents):
             raise Undecided('spec key %r of unit %s binds no function in the current tree' % (pat, unit))
-    # ---- assemble
-    lines = []
-    linemap = {}
+    # ---- assemble (repeated without the loop contracts of a function whose loop contract no longer
+    #      compiles against the current source: that function then falls back to the bounded search)
+    drop_loops = set(force_drop)
+    for _attempt in range(8):
+        # ---- assemble
+        lines = []
+        linemap = {}
 
-    def add(text):
-        for ln in text.split('\n'):
-            lines.append(ln)
+        def add(text):
+            for ln in text.split('\n'):
+                lines.append(ln)
 
-    add('/* unit %s: assembled verification program (generated) */' % unit)
-    add(read(os.path.join(VERIF, 'models', 'rt.h')))
-    for extra in spec.UNIT.get('model_headers', []):
-        add(read(os.path.join(VERIF, 'models', extra)))
-    add(names.names_h())
-    add(spec.UNIT.get('names', ''))
-    add(decls)
-    add('/* ---- unit ghost code ---- */')
-    add(spec.UNIT.get('ghost', ''))
-    add('/* ---- models ---- */')
-    add(read(os.path.join(VERIF, 'models', 'models.c')))
-    for extra in spec.UNIT.get('model_sources', []):
-        add(read(os.path.join(VERIF, 'models', extra)))
-    add('/* ---- lowered repository code ---- */')
-    # functions the spec replaces by a trusted stub (an assumed contract on a dependency, in executable form)
-    stubbed = {fn: e for fn, e in entries.items() if e.get('stub')}
-    if stubbed:
-        parts = []
-        for cn in meta['order']:
-            txt = meta['texts'][cn]
-            if cn in stubbed:
-                head = txt[:txt.index('/*@CONTRACT')]
-                txt = head + '/* body replaced by the trusted stub of specs/%s.py */\n{\n%s\n}\n' % (unit, subst(stubbed[cn]['stub'], fmeta[cn]).strip('\n'))
-            parts.append(txt)
-        defs = '\n\n'.join(parts) + '\n'
-    pending_prologue = None
-    for ln in defs.split('\n'):
-        if pending_prologue is not None and ln.strip() == '{':
-            lines.append(ln)
-            lines.append('  /* ghost prologue (spec): ' + pending_prologue.replace('\n', ' ') + ' */')
-            for pl in pending_prologue.strip().split('\n'):
-                lines.append('  ' + pl.strip())
-            pending_prologue = None
-            continue
-        m = re.match(r'^\s*/\*@CONTRACT (\S+)@\*/\s*$', ln)
-        if m:
-            fn = m.group(1)
-            e = entries.get(fn)
-            if e is not None and e.get('prologue') and not e.get('stub'):
-                # ghost-only statements executed at function entry (reset of per-call ghost counters)
-                pending_prologue = subst(e['prologue'], fmeta[fn])
-            if e is not None and not e.get('inline') and not e.get('harness') and not e.get('stub'):
-                fm = fmeta[fn]
-                for kind in ('requires', 'ensures'):
-                    for c in as_list(e.get(kind)):
+        add('/* unit %s: assembled verification program (generated) */' % unit)
+        add(read(os.path.join(VERIF, 'models', 'rt.h')))
+        for extra in spec.UNIT.get('model_headers', []):
+            add(read(os.path.join(VERIF, 'models', extra)))
+        add(names.names_h())
+        add(spec.UNIT.get('names', ''))
+        add(decls)
+        add('/* which repository functions exist in the current source (models that call a lowered closure are guarded by these) */')
+        for f in meta['functions']:
+            add('#define VF_HAVE_%s 1' % f['cname'])
+        add('/* ---- unit ghost code ---- */')
+        add(spec.UNIT.get('ghost', ''))
+        add('/* ---- models ---- */')
+        add(read(os.path.join(VERIF, 'models', 'models.c')))
+        for extra in spec.UNIT.get('model_sources', []):
+            add(read(os.path.join(VERIF, 'models', extra)))
+        add('/* ---- lowered repository code ---- */')
+        # functions the spec replaces by a trusted stub (an assumed contract on a dependency, in executable form)
+        stubbed = {fn: e for fn, e in entries.items() if e.get('stub')}
+        if stubbed:
+            parts = []
+            for cn in meta['order']:
+                txt = meta['texts'][cn]
+                if cn in stubbed:
+                    head = txt[:txt.index('/*@CONTRACT')]
+                    txt = head + '/* body replaced by the trusted stub of specs/%s.py */\n{\n%s\n}\n' % (unit, subst(stubbed[cn]['stub'], fmeta[cn]).strip('\n'))
+                parts.append(txt)
+            defs = '\n\n'.join(parts) + '\n'
+        pending_prologue = None
+        uncontracted = {}          # lowered function -> number of its loops that have no loop contract
+        for ln in defs.split('\n'):
+            if pending_prologue is not None and ln.strip() == '{':
+                lines.append(ln)
+                lines.append('  /* ghost prologue (spec): ' + pending_prologue.replace('\n', ' ') + ' */')
+                for pl in pending_prologue.strip().split('\n'):
+                    lines.append('  ' + pl.strip())
+                pending_prologue = None
+                continue
+            m = re.match(r'^\s*/\*@CONTRACT (\S+)@\*/\s*$', ln)
+            if m:
+                fn = m.group(1)
+                e = entries.get(fn)
+                if e is not None and e.get('prologue') and not e.get('stub'):
+                    # ghost-only statements executed at function entry (reset of per-call ghost counters)
+                    pending_prologue = subst(e['prologue'], fmeta[fn])
+                if e is not None and not e.get('inline') and not e.get('harness') and not e.get('stub'):
+                    fm = fmeta[fn]
+                    for kind in ('requires', 'ensures'):
+                        for c in as_list(e.get(kind)):
+                            tags, expr, text = clause(c)
+                            lines.append('__CPROVER_%s(%s)' % (kind, subst(expr, fm).replace('\n', ' ')))
+                            linemap[len(lines)] = {'fn': fn, 'kind': kind, 'tags': tags, 'expr': subst(expr, fm), 'text': text}
+                    fr = e.get('frees')
+                    if fr is not None:
+                        for f1 in ([fr] if isinstance(fr, str) else fr):
+                            lines.append('__CPROVER_frees(%s)' % subst(f1, fm).replace('\n', ' '))
+                    asg = e.get('assigns')
+                    if asg is not None:
+                        for a1 in ([asg] if isinstance(asg, str) else asg):
+                            lines.append('__CPROVER_assigns(%s)' % subst(a1, fm).replace('\n', ' '))
+                            linemap[len(lines)] = {'fn': fn, 'kind': 'assigns', 'tags': [], 'expr': subst(a1, fm), 'text': ''}
+                continue
+            m = re.match(r'^\s*/\*@LOOP (\S+)\.(\d+)@\*/\s*$', ln)
+            if m:
+                fn, k = m.group(1), int(m.group(2))
+                e = entries.get(fn)
+                lp = (e or {}).get('loops', {}).get(k) if fn not in drop_loops else None
+                if lp is None:
+                    uncontracted[fn] = uncontracted.get(fn, 0) + 1
+                if lp is not None:
+                    fm = fmeta[fn]
+                    if lp.get('assigns') is not None:
+                        for a1 in ([lp['assigns']] if isinstance(lp['assigns'], str) else lp['assigns']):
+                            lines.append('__CPROVER_assigns(%s)' % subst(a1, fm).replace('\n', ' '))
+                            linemap[len(lines)] = {'fn': fn, 'kind': 'loop_assigns', 'loop': k, 'tags': [], 'expr': subst(a1, fm), 'text': ''}
+                    for c in as_list(lp.get('invariant')):
                         tags, expr, text = clause(c)
-                        lines.append('__CPROVER_%s(%s)' % (kind, subst(expr, fm).replace('\n', ' ')))
-                        linemap[len(lines)] = {'fn': fn, 'kind': kind, 'tags': tags, 'expr': subst(expr, fm), 'text': text}
-                fr = e.get('frees')
-                if fr is not None:
-                    for f1 in ([fr] if isinstance(fr, str) else fr):
-                        lines.append('__CPROVER_frees(%s)' % subst(f1, fm).replace('\n', ' '))
-                asg = e.get('assigns')
-                if asg is not None:
-                    for a1 in ([asg] if isinstance(asg, str) else asg):
-                        lines.append('__CPROVER_assigns(%s)' % subst(a1, fm).replace('\n', ' '))
-                        linemap[len(lines)] = {'fn': fn, 'kind': 'assigns', 'tags': [], 'expr': subst(a1, fm), 'text': ''}
-            continue
-        m = re.match(r'^\s*/\*@LOOP (\S+)\.(\d+)@\*/\s*$', ln)
-        if m:
-            fn, k = m.group(1), int(m.group(2))
-            e = entries.get(fn)
-            lp = (e or {}).get('loops', {}).get(k)
-            if lp is not None:
-                fm = fmeta[fn]
-                if lp.get('assigns') is not None:
-                    for a1 in ([lp['assigns']] if isinstance(lp['assigns'], str) else lp['assigns']):
-                        lines.append('__CPROVER_assigns(%s)' % subst(a1, fm).replace('\n', ' '))
-                for c in as_list(lp.get('invariant')):
-                    tags, expr, text = clause(c)
-                    lines.append('__CPROVER_loop_invariant(%s)' % subst(expr, fm).replace('\n', ' '))
-                    linemap[len(lines)] = {'fn': fn, 'kind': 'loop_invariant', 'loop': k, 'tags': tags, 'expr': subst(expr, fm), 'text': text}
-                if lp.get('decreases'):
-                    lines.append('__CPROVER_decreases(%s)' % subst(lp['decreases'], fm))
-                    linemap[len(lines)] = {'fn': fn, 'kind': 'decreases', 'loop': k, 'tags': [], 'expr': lp['decreases'], 'text': ''}
-            continue
-        m = re.match(r'^\s*/\*@AFTERLOOP (\S+)\.(\d+)@\*/\s*$', ln)
-        if m:
-            fn, k = m.group(1), int(m.group(2))
-            lp = (entries.get(fn) or {}).get('loops', {}).get(k)
-            if lp is not None and not lp.get('exit_unreachable'):
-                # vacuity guard for the loop contract: an invariant that contradicts the state at loop
-                # entry makes everything behind the loop unreachable (and every obligation there "pass")
-                lines.append('__CPROVER_assert(0, "vf_reach_loop %s.%d: the code behind this loop is reachable (vacuity guard for the loop invariant)");' % (fn, k))
-            continue
-        lines.append(ln)
-        m = re.match(r'^\s*/\* (gmlc/\S+):(\d+) \*/\s*$', ln)
-        if m:
-            linemap['src'] = linemap.get('src', {})
-    # source map: C line -> repo file:line (last comment seen)
-    srcmap = {}
-    cur = None
-    curfn = None
-    for i, ln in enumerate(lines, 1):
-        m = re.match(r'^\s*/\* (gmlc/\S+):(\d+) \*/\s*$', ln)
-        if m:
-            cur = (m.group(1), int(m.group(2)))
-        if cur:
-            srcmap[i] = cur
-    # ---- harnesses
-    add('/* ---- harnesses ---- */')
-    targets = []
-    for fn, e in entries.items():
-        if e.get('inline') or e.get('contract_only') or e.get('stub'):
-            continue
-        fm = fmeta[fn]
-        h = ['void vf_h_%s(void)' % fn, '{']
-        h.append('  VF_GHOST_BOUNDS();')
-        if e.get('harness'):
-            # plain bounded harness (no contract instrumentation): the spec provides the whole body
-            for ln in subst(e['harness'], fm).strip().split('\n'):
-                h.append('  ' + ln.rstrip())
+                        lines.append('__CPROVER_loop_invariant(%s)' % subst(expr, fm).replace('\n', ' '))
+                        linemap[len(lines)] = {'fn': fn, 'kind': 'loop_invariant', 'loop': k, 'tags': tags, 'expr': subst(expr, fm), 'text': text}
+                    if lp.get('decreases'):
+                        lines.append('__CPROVER_decreases(%s)' % subst(lp['decreases'], fm))
+                        linemap[len(lines)] = {'fn': fn, 'kind': 'decreases', 'loop': k, 'tags': [], 'expr': lp['decreases'], 'text': ''}
+                continue
+            m = re.match(r'^\s*/\*@AFTERLOOP (\S+)\.(\d+)@\*/\s*$', ln)
+            if m:
+                fn, k = m.group(1), int(m.group(2))
+                lp = (entries.get(fn) or {}).get('loops', {}).get(k) if fn not in drop_loops else None
+                if lp is not None and not lp.get('exit_unreachable'):
+                    # vacuity guard for the loop contract: an invariant that contradicts the state at loop
+                    # entry makes everything behind the loop unreachable (and every obligation there "pass")
+                    lines.append('__CPROVER_assert(0, "vf_reach_loop %s.%d: the code behind this loop is reachable (vacuity guard for the loop invariant)");' % (fn, k))
+                continue
+            lines.append(ln)
+            m = re.match(r'^\s*/\* (gmlc/\S+):(\d+) \*/\s*$', ln)
+            if m:
+                linemap['src'] = linemap.get('src', {})
+        # source map: C line -> repo file:line (last comment seen)
+        srcmap = {}
+        cur = None
+        curfn = None
+        for i, ln in enumerate(lines, 1):
+            m = re.match(r'^\s*/\* (gmlc/\S+):(\d+) \*/\s*$', ln)
+            if m:
+                cur = (m.group(1), int(m.group(2)))
+            if cur:
+                srcmap[i] = cur
+        # ---- harnesses
+        add('/* ---- harnesses ---- */')
+        targets = []
+        for fn, e in entries.items():
+            if e.get('inline') or e.get('contract_only') or e.get('stub'):
+                continue
+            fm = fmeta[fn]
+            h = ['void vf_h_%s(void)' % fn, '{']
+            h.append('  VF_GHOST_BOUNDS();')
+            if e.get('harness'):
+                # plain bounded harness (no contract instrumentation): the spec provides the whole body
+                for ln in subst(e['harness'], fm).strip().split('\n'):
+                    h.append('  ' + ln.rstrip())
+                h.append('  __CPROVER_assert(0, "vf_reach: end of harness is reachable (vacuity guard)");')
+                h.append('}')
+                add('\n'.join(h))
+                targets.append(fn)
+                continue
+            argn = []
+            for p in fm['params']:
+                ct, nm = param_decl(p)
+                if ct.endswith('*'):
+                    base = ct[:-1].strip()
+                    if base == 'void':
+                        h.append('  void* %s = 0;' % nm)
+                    else:
+                        h.append('  %s %s_obj; %s %s = &%s_obj;' % (base, nm, ct, nm, nm))
+                else:
+                    h.append('  %s %s;' % (ct, nm))
+                argn.append(nm)
+            if e.get('setup'):
+                for ln in subst(e['setup'], fm).strip().split('\n'):
+                    h.append('  ' + ln.strip())
+            h.append('  vf_exc = 0;')
+            call = '%s(%s);' % (fn, ', '.join(argn))
+            if fm['ret'] != 'void':
+                call = '%s vf_result = %s' % (fm['ret'], call)
+            h.append('  ' + call)
+            if e.get('post'):
+                for ln in subst(e['post'], fm).strip().split('\n'):
+                    h.append('  ' + ln.strip())
             h.append('  __CPROVER_assert(0, "vf_reach: end of harness is reachable (vacuity guard)");')
             h.append('}')
             add('\n'.join(h))
             targets.append(fn)
-            continue
-        argn = []
-        for p in fm['params']:
-            ct, nm = param_decl(p)
-            if ct.endswith('*'):
-                base = ct[:-1].strip()
-                if base == 'void':
-                    h.append('  void* %s = 0;' % nm)
-                else:
-                    h.append('  %s %s_obj; %s %s = &%s_obj;' % (base, nm, ct, nm, nm))
-            else:
-                h.append('  %s %s;' % (ct, nm))
-            argn.append(nm)
-        if e.get('setup'):
-            for ln in subst(e['setup'], fm).strip().split('\n'):
-                h.append('  ' + ln.strip())
-        h.append('  vf_exc = 0;')
-        call = '%s(%s);' % (fn, ', '.join(argn))
-        if fm['ret'] != 'void':
-            call = '%s vf_result = %s' % (fm['ret'], call)
-        h.append('  ' + call)
-        if e.get('post'):
-            for ln in subst(e['post'], fm).strip().split('\n'):
-                h.append('  ' + ln.strip())
-        h.append('  __CPROVER_assert(0, "vf_reach: end of harness is reachable (vacuity guard)");')
-        h.append('}')
-        add('\n'.join(h))
-        targets.append(fn)
-    cfile = os.path.join(d, 'unit.c')
-    with open(cfile, 'w') as f:
-        f.write('\n'.join(lines) + '\n')
-    rc, so, se = run(['goto-cc', '-c', '-o', os.path.join(d, 'syntax.gb'), cfile])
-    if rc != 0:
-        raise Undecided('assembled program of unit %s does not compile (missing model / spec error):\n%s' % (unit, (se or so)[-3000:]))
+        cfile = os.path.join(d, 'unit.c')
+        with open(cfile, 'w') as f:
+            f.write('\n'.join(lines) + '\n')
+        rc, so, se = run(['goto-cc', '-c', '-o', os.path.join(d, 'syntax.gb'), cfile])
+        if rc != 0:
+            # is the offending line a loop-contract clause?  then drop that function's loop contracts and retry
+            culprit = None
+            for mm in re.finditer(r'unit\.c:(\d+):', (se or '') + '\n' + (so or '')):
+                lm_ = linemap.get(int(mm.group(1)))
+                if lm_ and lm_.get('kind') in ('loop_invariant', 'decreases', 'loop_assigns') and lm_['fn'] not in drop_loops:
+                    culprit = lm_['fn']
+                    break
+            if culprit is not None:
+                drop_loops.add(culprit)
+                continue
+            raise Undecided('assembled program of unit %s does not compile (missing model / spec error):\n%s' % (unit, (se or so)[-3000:]))
+        break
     # every function the lowered code calls must have a body (a model): a bodiless function would be
     # treated as "unreachable" by the contract instrumentation and make proofs vacuous
     rc, so, se = run(['goto-instrument', '--list-undefined-functions', os.path.join(d, 'syntax.gb')])
@@ -374,10 +398,12 @@ def build_unit(unit, quiet=True):
         repl[fn] = sorted(out)
     # loops in the function itself plus every callee whose body is inlined
     loops_closure = {}
+    unc_closure = {}
     for fn in targets:
         seen = set()
         st = [fn]
         total = 0
+        unc = 0
         while st:
             g = st.pop()
             if g in seen or g not in fmeta:
@@ -386,9 +412,11 @@ def build_unit(unit, quiet=True):
             if g != fn and g in repl[fn]:
                 continue
             total += fmeta[g]['loops']
+            unc += uncontracted.get(g, 0)
             st.extend(fmeta[g]['calls'])
         loops_closure[fn] = total
-    info = {'unit': unit, 'dir': d, 'cfile': cfile, 'targets': targets, 'replace': repl, 'loops_closure': loops_closure,
+        unc_closure[fn] = unc
+    info = {'unit': unit, 'dir': d, 'cfile': cfile, 'targets': targets, 'replace': repl, 'loops_closure': loops_closure, 'unc_closure': unc_closure,
             'linemap': {str(k): v for k, v in linemap.items() if k != 'src'},
             'srcmap': {str(k): v for k, v in srcmap.items()},
             'entries': {fn: {'props': as_list(e.get('props')) if not isinstance(e.get('props'), str) else e['props'].split(),
@@ -456,6 +484,13 @@ def verify_fn_once(info, fn, solver=None):
         if rc != 0:
             return {'fn': fn, 'status': 'undecided', 'why': 'goto-instrument failed: ' + (so + se)[-3000:], 'obligations': [], 'seconds': time.time() - t0}
     flags = list(CBMC_FLAGS) + list(ent.get('cbmc_flags') or [])
+    fallback = False
+    if info.get('unc_closure', {}).get(fn, 0) > 0 and not ent.get('plain') and not ent.get('bounded') and not ent.get('loop_free') \
+            and not any('unwind' in str(f) for f in (ent.get('cbmc_flags') or [])):
+        # a loop of the (changed) source has no loop contract: no unbounded proof is possible; search for
+        # violations up to a small depth instead (failures found are real, "no failure" proves nothing)
+        flags += ['--unwind', '4', '--no-unwinding-assertions']
+        fallback = True
     if solver:
         flags += ['--sat-solver', solver]
     cmd3 = ['cbmc', b, '--json-ui'] + flags
@@ -464,7 +499,7 @@ def verify_fn_once(info, fn, solver=None):
         if os.path.exists(p):
             os.remove(p)
     secs = time.time() - t0
-    res = {'fn': fn, 'seconds': secs, 'cmd': ' && '.join(' '.join(c) for c in (cmd1, cmd2, cmd3)).replace(d + '/', '')}
+    res = {'fn': fn, 'seconds': secs, 'cmd': ' && '.join(' '.join(c) for c in (cmd1, cmd2, cmd3)).replace(d + '/', ''), 'fallback': fallback}
     if rc == -9:
         res.update(status='undecided', why='solver timeout (%ds)' % TIMEOUT, obligations=[])
         return res
